@@ -196,6 +196,13 @@ def check_misc(case):
     same(box.eval(), A, "box-eval")
     same(box.dagger().eval(), A.conj().T, "box-dagger-eval")
     same((box >> box.dagger()).eval(), A @ A.conj().T, "box-then-dagger")
+    # tensor of several factors at once
+    c = build(case["bad"])
+    C = mat_of(case["bad"])
+    same(a.tensor(b, c), np.kron(np.kron(A, B), C), "tensor-variadic")
+    same(Tensor.id(Dim(1)).tensor(a, b, c), np.kron(np.kron(A, B), C),
+         "tensor-variadic-from-unit")
+    same(a.tensor(), A, "tensor-nothing")
     bad = build(case["bad"])
     if list(a.cod) != list(bad.dom):
         common.expect_raises(lambda: a >> bad, (AxiomError, Exception),
